@@ -39,6 +39,7 @@ type checkSpec struct {
 	Files     []string       `json:"files"`     // harness files relative to /verif/harness
 	Extra     []extraOverlay `json:"extra"`     // harness files for other packages
 	Rewrites  []constRewrite `json:"rewrites"`  // scaled constants
+	TextRewrites []textRewrite `json:"text_rewrites"` // scaled literal thresholds (exact source text)
 	MaxSteps  int            `json:"max_steps"`
 	Timeout   map[string]int `json:"timeout_s"` // per tier
 	MaxSplit  int            `json:"max_split"`
@@ -126,6 +127,21 @@ func buildOverlay(repo, verif string, spec *checkSpec) (map[string][]byte, error
 			return nil, err
 		}
 		ov[path] = out
+	}
+	for _, rw := range spec.TextRewrites {
+		path := filepath.Join(repo, rw.File)
+		src, ok := ov[path]
+		if !ok {
+			var err error
+			src, err = os.ReadFile(path)
+			if err != nil {
+				return nil, err
+			}
+		}
+		if strings.Count(string(src), rw.Old) != 1 {
+			return nil, fmt.Errorf("CHECK-ERROR: text %q not found exactly once in %s", rw.Old, path)
+		}
+		ov[path] = []byte(strings.Replace(string(src), rw.Old, rw.New, 1))
 	}
 	return ov, nil
 }
